@@ -80,6 +80,35 @@ func GenForkArrivals(r *common.Rng, base uint64, n int, maxH uint64) []FBlock {
 		sort.Slice(tips, func(i, j int) bool { return tips[i].Num > tips[j].Num })
 		return tips
 	}
+	// one time in three the tree starts with a ping-pong: branch b forks off base+1 and overtakes, branch a catches up
+	// and overtakes (its undone blocks are applied a second time), branch b overtakes again (they are undone a second
+	// time), …
+	if r.Chance(1, 3) {
+		a, b := blocks[1], blocks[1]
+		first := true
+		for round := 0; round < r.Range(2, 4); round++ {
+			// b overtakes a
+			for b.Num <= a.Num || first {
+				nb, ok := add(b, first)
+				first = false
+				if !ok {
+					break
+				}
+				b = nb
+			}
+			// a overtakes b
+			for a.Num <= b.Num {
+				na, ok := add(a, false)
+				if !ok {
+					break
+				}
+				a = na
+			}
+			if a.Num >= base+maxH || b.Num >= base+maxH {
+				break
+			}
+		}
+	}
 	for len(blocks) < n+2 {
 		tips := tipsOf()
 		switch r.Intn(5) {
